@@ -47,7 +47,7 @@ class ArgsFormat(object):
             if option.short_name:
                 self._options_by_short_name[option.short_name] = option
 
-        for command_option in builder.get_command_options():
+        for command_option in builder.get_command_options(False):
             self._command_options[command_option.long_name] = command_option
 
             if command_option.short_name:
@@ -117,7 +117,11 @@ class ArgsFormat(object):
     def get_command_options(
         self, include_base=True
     ):  # type: (bool) -> List[CommandOption]
-        command_options = list(self._command_options.values())
+        # An option is registered once per long name and alias: list it once
+        command_options = []
+        for command_option in self._command_options.values():
+            if command_option not in command_options:
+                command_options.append(command_option)
 
         if include_base and self._base_format:
             command_options += self._base_format.get_command_options()
